@@ -41,8 +41,8 @@ def gen_span(rng, n):
     return [a, b]
 
 
-def gen_db(rng, max_programs=6, meta_program="mostly", imports=True):
-    k = rng.randint(1, max_programs)
+def gen_db(rng, max_programs=6, meta_program="mostly", imports=True, min_programs=1, import_p=0.6, edge_p=0.3):
+    k = rng.randint(min_programs, max_programs)
     paths = rng.sample(PROG_POOL, k)
     programs = {}
     lines = {}
@@ -62,12 +62,12 @@ def gen_db(rng, max_programs=6, meta_program="mostly", imports=True):
         # keep a plausible dict order: sorted names, as make_db does
         programs[p] = {"source": "\n".join(f"line{i}" for i in range(1, n + 1)), "taxa": dict(sorted(taxa.items())), "labels": {}}
     direct = {p: set() for p in paths}
-    if imports and k > 1 and rng.random() < 0.6:
+    if imports and k > 1 and rng.random() < import_p:
         order = list(paths)
         rng.shuffle(order)
         for i, p in enumerate(order):
             for q in order[:i]:
-                if rng.random() < 0.3:
+                if rng.random() < edge_p:
                     direct[p].add(q)
     closure = {}
 
